@@ -69,6 +69,8 @@ PUpd   == H.ty = "R" /\ Fill("upd", Node("upd", 0, "R"), <<Hole("I", H.sc), Hole
 PProj  == H.ty = "I" /\ \E g \in {"prx", "pry"} : Fill(g, Node(g, 0, "I"), <<Hole("R", H.sc)>>)
 PMkP   == H.ty = "P" /\ Fill("mkp", Node("mkp", 0, "P"), <<Hole("I", H.sc), Hole("I", H.sc)>>)
 PMTup  == H.ty = "I" /\ Room(2) /\ Fill("mtup", Node("mtup", Len(H.sc) + 1, "I"), <<Hole("P", H.sc), Hole("I", Ext(H.sc, <<"I", "I">>))>>)
+\* match r with | { x = v1, y = v2 } -> e     (a record pattern whose fields are bound under other names)
+PMRec  == H.ty = "I" /\ Room(2) /\ Fill("mrec", Node("mrec", Len(H.sc) + 1, "I"), <<Hole("R", H.sc), Hole("I", Ext(H.sc, <<"I", "I">>))>>)
 POpt   == H.ty = "O" /\ (Fill("none", Node("none", 0, "O"), <<>>) \/ Fill("some", Node("some", 0, "O"), <<Hole("I", H.sc)>>))
 PMOpt  == H.ty = "I" /\ Room(1) /\ Fill("mopt", Node("mopt", 0, "I"), <<Hole("O", H.sc), Hole("I", Ext(H.sc, <<"I">>)), Hole("I", H.sc)>>)
 PMPart == H.ty = "I" /\ Room(1) /\ Fill("mpart", Node("mpart", 0, "I"), <<Hole("O", H.sc), Hole("I", Ext(H.sc, <<"I">>))>>)
@@ -100,7 +102,7 @@ PRetype ==
 
 Next == pending # <<>> /\
   (PVar \/ PLit \/ PBig \/ PArith \/ PIf \/ PLet \/ PLetU \/ PApp1 \/ PApp2 \/ PPapp \/ PLam1 \/ PLam2 \/ PLam11 \/ PEff \/ PErr
-   \/ PBool \/ PCmp \/ PLogic \/ PMkR \/ PUpd \/ PProj \/ PMkP \/ PMTup \/ POpt \/ PMOpt \/ PMPart \/ PMLit \/ PList \/ PMList
+   \/ PBool \/ PCmp \/ PLogic \/ PMkR \/ PUpd \/ PProj \/ PMkP \/ PMTup \/ PMRec \/ POpt \/ PMOpt \/ PMPart \/ PMLit \/ PList \/ PMList
    \/ PArr \/ PIdx \/ PRecF \/ PMListD \/ PMOpt3 \/ PRetype)
 
 Spec == Init /\ [][Next]_vars
@@ -137,7 +139,7 @@ Same(x, y) == x.k = y.k /\ x.d = y.d
 Arity(g) ==
   CASE g \in {"var", "lit", "big", "err", "true", "false", "none", "nil", "arr0"} -> 0
     [] g \in {"lam1", "lam2", "lam11", "eff", "effm", "prx", "pry", "some"} -> 1
-    [] g \in {"add", "sub", "mul", "div", "let", "letu", "app1", "papp", "lt", "eq", "and", "or", "mkr", "upd", "mkp", "mtup",
+    [] g \in {"add", "sub", "mul", "div", "let", "letu", "app1", "papp", "lt", "eq", "and", "or", "mkr", "upd", "mkp", "mtup", "mrec",
               "mpart", "cons", "arr2", "idx"} -> 2
     [] g \in {"if", "app2", "mopt", "recf"} -> 3
     [] g \in {"mlit", "mlist", "mlistd", "mopt3"} -> 4
@@ -227,6 +229,14 @@ Ev(P, i, env, log, fuel) ==
          IF p[c1].g = "mkp" /\ ((c1 + 1) \in P.skip \/ E[c1 + 1] \in P.skip)
            THEN \* components bound to unused variables are dead
                 LET x == IF (c1 + 1) \in P.skip THEN Val(IV(0, 0), log) ELSE Ev(P, c1 + 1, env, log, fuel) IN
+                IF x.k # "val" THEN x
+                ELSE LET y == IF E[c1 + 1] \in P.skip THEN Val(IV(0, 0), x.log) ELSE Ev(P, E[c1 + 1], env, x.log, fuel) IN
+                     IF y.k # "val" THEN y ELSE Ev(P, c2, env \o <<x.v, y.v>>, y.log, fuel)
+           ELSE LET a == Ev(P, c1, env, log, fuel) IN
+                IF a.k # "val" THEN a ELSE Ev(P, c2, env \o a.v.f, a.log, fuel)
+    [] g = "mrec" ->
+         IF p[c1].g = "mkr" /\ ((c1 + 1) \in P.skip \/ E[c1 + 1] \in P.skip)
+           THEN LET x == IF (c1 + 1) \in P.skip THEN Val(IV(0, 0), log) ELSE Ev(P, c1 + 1, env, log, fuel) IN
                 IF x.k # "val" THEN x
                 ELSE LET y == IF E[c1 + 1] \in P.skip THEN Val(IV(0, 0), x.log) ELSE Ev(P, E[c1 + 1], env, x.log, fuel) IN
                      IF y.k # "val" THEN y ELSE Ev(P, c2, env \o <<x.v, y.v>>, y.log, fuel)
@@ -327,6 +337,8 @@ DeadStep(p, E, D) ==
   \cup {i + 2 : i \in {x \in 1..Len(p) : p[x].g = "pry" /\ p[x + 1].g = "mkr"}}
   \cup {i + 2 : i \in {x \in 1..Len(p) : p[x].g = "mtup" /\ p[x + 1].g = "mkp" /\ ~UsedOutside(p, E, E[x + 1], E[x], p[x].a, D)}}
   \cup {E[i + 2] : i \in {x \in 1..Len(p) : p[x].g = "mtup" /\ p[x + 1].g = "mkp" /\ ~UsedOutside(p, E, E[x + 1], E[x], p[x].a + 1, D)}}
+  \cup {i + 2 : i \in {x \in 1..Len(p) : p[x].g = "mrec" /\ p[x + 1].g = "mkr" /\ ~UsedOutside(p, E, E[x + 1], E[x], p[x].a, D)}}
+  \cup {E[i + 2] : i \in {x \in 1..Len(p) : p[x].g = "mrec" /\ p[x + 1].g = "mkr" /\ ~UsedOutside(p, E, E[x + 1], E[x], p[x].a + 1, D)}}
 \* transitively dead (a variable used only by dead bindings is dead): three rounds suffice for the generated sizes
 DeadLets(p, E) == DeadStep(p, E, DeadStep(p, E, DeadStep(p, E, {})))
 \* a set of dead roots may be dropped together only if what it drops is dead once it is dropped
